@@ -15,21 +15,42 @@ Theorem C09_sort_dedup_is_identity_on_sets : forall x l, In x (sort_dedup l) <->
 Proof. exact sort_dedup_in. Qed.
 Print Assumptions C09_sort_dedup_is_identity_on_sets.
 
-(* C09_partial: when the resolved journal's primary is the requesting document itself (requests
-   from the root, or without a workspace), every file is consulted under its own path *)
-Theorem C09_partial_journals_own_paths : forall files pj current cj p j,
-  In (p, j) (all_journals files (Some pj) true current cj) <->
+(* Which journals are consulted, and under which path ("each attributed to the file that contains
+   it, whichever file of the tree the request is made from"): given the resolved tree -- its primary
+   parsed from file pp, the other files in `files` -- every pair consulted is the requesting
+   document, the primary under pp, or a file of the tree under its own path ... *)
+Theorem C09_consulted_journals_own_paths : forall files pj pp current cj p j,
+  In (p, j) (all_journals files (Some pj) true pp current cj) ->
+  (p = current /\ (j = cj \/ (pp = current /\ j = pj))) \/ (p = pp /\ j = pj) \/ In (p, j) files.
+Proof. exact consulted_journals_own_paths. Qed.
+Print Assumptions C09_consulted_journals_own_paths.
+
+(* ... and every file of the tree other than the requesting document is consulted *)
+Theorem C09_tree_files_are_consulted : forall files pj pp current cj p j,
+  (p = pp /\ j = pj) \/ In (p, j) files -> p <> current ->
+  (pp <> current -> ~ In pp (map fst files)) ->
+  In (p, j) (all_journals files (Some pj) true pp current cj).
+Proof. exact tree_files_are_consulted. Qed.
+Print Assumptions C09_tree_files_are_consulted.
+
+(* exact characterisations of the two situations *)
+Theorem C09_journals_request_from_primary : forall files pj current cj p j,
+  In (p, j) (all_journals files (Some pj) true current current cj) <->
   (p = current /\ j = pj) \/ (p <> current /\ In (p, j) files).
 Proof. exact all_journals_from_primary. Qed.
-Print Assumptions C09_partial_journals_own_paths.
+Print Assumptions C09_journals_request_from_primary.
 
-(* the full statement ("whichever file of the tree the request is made from") is false: in
-   workspace mode a request from an included file files the ROOT's AST under the requesting
-   file's path and loses that file's own occurrences *)
-Theorem C09_refuted_request_from_include :
-  find_references KAccount (bs "a:b") true (all_journals [(1%N, sub_ast)] (Some root_ast) true 1%N sub_ast)
-  = [mkLoc 1 (mkPR 2 4 2 7)]
-  /\ find_references KAccount (bs "a:b") true [(1%N, sub_ast); (3%N, root_ast)]
-     = [mkLoc 1 (mkPR 1 4 1 7); mkLoc 3 (mkPR 2 4 2 7)].
-Proof. exact from_include_refuted. Qed.
-Print Assumptions C09_refuted_request_from_include.
+Theorem C09_journals_request_from_include : forall files pj pp current cj p j, pp <> current ->
+  In (p, j) (all_journals files (Some pj) true pp current cj) <->
+  (p = current /\ j = cj) \/ (p = pp /\ j = pj) \/ (p <> current /\ p <> pp /\ In (p, j) files).
+Proof. exact all_journals_from_elsewhere. Qed.
+Print Assumptions C09_journals_request_from_include.
+
+(* non-vacuity, and the history that used to fail (the root's occurrence was filed under the
+   requesting file's path and that file's own occurrence was lost): main (path 3) includes sub
+   (path 1), both post to a:b, references requested from sub *)
+Theorem C09_sample_request_from_include :
+  find_references KAccount (bs "a:b") true (all_journals [(1%N, sub_ast)] (Some root_ast) true 3%N 1%N sub_ast)
+  = [mkLoc 1 (mkPR 1 4 1 7); mkLoc 3 (mkPR 2 4 2 7)].
+Proof. exact from_include_sample. Qed.
+Print Assumptions C09_sample_request_from_include.
